@@ -234,7 +234,9 @@ impl<'a> Parser<'a> {
             self.advance();
 
             if self.current_token == Token::If {
-                Some(vec![self.parse_statement()?])
+                // only the if-expression itself belongs to the chain: what follows it (a `;`,
+                // an operator, an opening bracket) belongs to the outermost if-expression
+                Some(vec![Stmt::Expr(self.parse_if_expr()?)])
             } else {
                 Some(self.parse_block_statement()?)
             }
